@@ -61,10 +61,12 @@ pub(super) fn run_write(invocation: ToolInvocation, config: &BuiltinToolConfig) 
         }
         if path.exists() {
             if let Err(err) = fs::remove_file(&path) {
+                let _ = fs::remove_file(&tmp_path);
                 return ToolOutput::failure(vec![format!("write failed: {err}")]);
             }
         }
         if let Err(err) = fs::rename(&tmp_path, &path) {
+            let _ = fs::remove_file(&tmp_path);
             return ToolOutput::failure(vec![format!("write failed: {err}")]);
         }
         args.content.len()
